@@ -673,6 +673,44 @@ def run(ctx) -> None:
                "graph nodes only, so a stage can be in both lists (a loop's placeholder is never marked done in a normal run) and CheckStatus "
                "adds its weight twice - the reported total exceeds one" % (short(loops_[0].iter, 40) if loops_ else short(a0, 30)),
                construct="get_stages_in_transit: node_is_active(<graph node>)")
+    # .. and on the CURRENT graph: the graph grows while the experiment runs (a DoWhile adds the nodes of its next iteration to a stage whose
+    # nodes had all finished), so 'finished' is not monotone.  A selection that remembers its verdicts in an attribute of the controller
+    # keeps calling the re-opened stage finished while the node-based in-transit selection lists it again: counted twice (total > 1).
+    # Such a memo is sound only if every method that grows the graph resets it.
+    MUTATORS_ = {"add", "append", "update", "extend", "insert", "setdefault", "__setitem__"}
+    growers = [f_ for q_, f_ in ctl.functions.items() if q_.startswith("Controller.") and any(
+        last_attr(c_) in ("instantiate_dowhile_next_iteration", "add_node", "add_nodes_from") for c_ in source.calls_in(f_, include_nested=True))]
+    for f in (gsf, gst):
+        memo = set()
+        for n_ in source.walk_own(f):
+            if isinstance(n_, ast.Call) and last_attr(n_) in MUTATORS_ and isinstance(n_.func.value, ast.Attribute) \
+                    and isinstance(n_.func.value.value, ast.Name) and n_.func.value.value.id == "self":
+                memo.add(n_.func.value.attr)
+            if isinstance(n_, (ast.Assign, ast.AugAssign)):
+                for t_ in (n_.targets if isinstance(n_, ast.Assign) else [n_.target]):
+                    base = t_.value if isinstance(t_, ast.Subscript) else t_
+                    if isinstance(base, ast.Attribute) and isinstance(base.value, ast.Name) and base.value.id == "self":
+                        memo.add(base.attr)
+        bad = []
+        for attr in sorted(memo):
+            def resets(g_: ast.AST) -> bool:
+                for x_ in ast.walk(g_):
+                    if isinstance(x_, ast.Assign) and any(isinstance(t_, ast.Attribute) and t_.attr == attr and isinstance(t_.value, ast.Name)
+                                                          and t_.value.id == "self" for t_ in x_.targets):
+                        return True
+                    if isinstance(x_, ast.Call) and last_attr(x_) in ("clear", "discard", "remove", "difference_update", "pop") \
+                            and isinstance(x_.func.value, ast.Attribute) and x_.func.value.attr == attr:
+                        return True
+                return False
+            if not growers or not all(resets(g_) for g_ in growers):
+                bad.append(attr)
+        ctx.ob("C20.R7-total-is-a-weighted-sum", f, not bad,
+               "%s decides from the current graph (it keeps no verdicts between calls)" % f.name if not bad else
+               "%s remembers its verdicts in self.%s between calls, and %s does not reset it when it adds the nodes of a new loop iteration: "
+               "a stage whose nodes had all finished is re-opened by the new iteration, the in-transit selection lists it again while the "
+               "remembered verdict still calls it finished - CheckStatus adds fraction*weight AND weight for it, the total exceeds one"
+               % (f.name, bad[0], ", ".join(source.qualname(g_).split(".")[-1] for g_ in growers) or "nothing"),
+               construct="%s: no verdict survives a growth of the graph" % f.name)
     # the two lists are one snapshot: complementary predicates only give disjoint sets when they are evaluated on one state
     def lock_attrs(f: ast.AST) -> Set[str]:
         return {it.context_expr.attr for w in source.walk_own(f) if isinstance(w, ast.With) for it in w.items if isinstance(it.context_expr, ast.Attribute)}
